@@ -597,11 +597,36 @@ func (t *tr) call(ins ssa.Instruction, cc *ssa.CallCommon, R string, heaps map[s
 	fs := t.contractFor(cc)
 	t.callCount[name]++
 	n := t.callCount[name]
+	if o, ok := t.callOrd[ins]; ok {
+		n = o // ordinal in source order
+	}
+	if t.own != nil && t.parent == nil {
+		for _, ac := range t.own.Asserts2 {
+			if ac.N != n || !(name == ac.Callee || strings.HasSuffix(name, "."+ac.Callee) || strings.HasSuffix(name, ")."+ac.Callee)) {
+				continue
+			}
+			idx := 0
+			for k, bi := range t.curBlock.Instrs {
+				if bi == ins {
+					idx = k
+				}
+			}
+			term, err := t.evalGoal(ac.Expr, t.pointEnv(t.curBlock, idx), heaps, t.oldHeaps)
+			if err != nil {
+				t.fatalf("assert %s (%s): %v", ac.Label, ac.Where, err)
+				continue
+			}
+			t.oblige("ensures", fmt.Sprintf("assert/%s@call[%d:%s]", ac.Label, n, shortName(name)), R, term, ins.Pos())
+			t.assertsSeen[ac.Label] = true
+		}
+	}
 	if fs == nil {
 		if callee != nil && t.inlineCall(ins, callee, args, R, heaps, xval, flat) {
 			return
 		}
+		preU := copyMap(heaps)
 		t.unknownCall(name, callee, cc, R, heaps, results, resTypes)
+		t.preservePrivate(ins, cc, R, preU, heaps)
 		return
 	}
 	if fs.Trusted {
@@ -642,6 +667,7 @@ func (t *tr) call(ins ssa.Instruction, cc *ssa.CallCommon, R string, heaps map[s
 		}
 		t.applyModifies(heaps, targets, R)
 	}
+	t.preservePrivate(ins, cc, R, pre, heaps)
 	env2, err := t.calleeEnv(fs, cc, args, argTypes, results, resTypes)
 	if err != nil {
 		t.fatalf("call to %s: %v", name, err)
@@ -1031,7 +1057,9 @@ func (t *tr) inlineCall(ins ssa.Instruction, callee *ssa.Function, args [][]stri
 	ct.entryHeapsInl = heaps
 	ct.unknownCallees, ct.trustedUsed, ct.contractsUsed, ct.abstracted = t.unknownCallees, t.trustedUsed, t.contractsUsed, t.abstracted
 	ct.specFacts = t.specFacts
+	ct.opaquePreds, ct.footprint = t.opaquePreds, t.footprint
 	ct.oblNames = t.oblNames
+	ct.predDefs, ct.qsort = t.predDefs, t.qsort
 	if len(args) != len(callee.Params) {
 		return false
 	}
